@@ -38,9 +38,10 @@ def transport(t):
     return {"alg": "ECDH-ES", "enc": "A128CBC-HS256"}, EC_KEY, KeySet([EC_KEY, ice.fake_key("P-256", kid="e2", private=True)]), JWERegistry()
 
 
-def encode_decode(t: int, typ_kind: int, typ: str, extra_hdr: bool, c_kind: int, n: int, s: str, c2: bool, keyset: bool, pick: int) -> bool:
+def encode_decode(t: int, c_kind: int, typ_kind: int, typ: str, extra_hdr: bool, n: int, s: str, c2: bool, keyset: bool, pick: int) -> bool:
     """
-    PRE: 0 <= t <= 3 and 0 <= typ_kind <= 2 and len(typ) <= 2 and 0 <= c_kind < NK and -2 <= n <= 2 and len(s) <= 2 and 0 <= pick <= 1
+    PRE: 0 <= t <= 3 and 0 <= typ_kind <= 2 and len(typ) <= 1 and 0 <= c_kind < NK and -2 <= n <= 2 and len(s) <= 1 and 0 <= pick <= 1
+    PRE: keyset or pick == 0
     POST: _
     """
     rt.tick()
@@ -180,7 +181,7 @@ def replay(func, call):
     REAL = [("oct32", {"alg": "HS256"}, None), ("P-256", {"alg": "ES256"}, None), ("oct16", {"alg": "A128KW", "enc": "A128GCM"}, JWERegistry()),
             ("P-256", {"alg": "ECDH-ES", "enc": "A128CBC-HS256"}, JWERegistry())]
     if func == "encode_decode":
-        t, typ_kind, typ, extra_hdr, c_kind, n, s, c2, keyset, pick = args
+        t, c_kind, typ_kind, typ, extra_hdr, n, s, c2, keyset, pick = args
         kind, base, reg = REAL[t]
         j1, j2 = dict(R.test_key(kind), kid="k1"), dict(R._ephemeral(kind) if kind in R.CURVES else {"kty": "oct", "k": R.b64e(b"z" * (16 if t == 2 else 32))}, kid="k2")
         k = KeySet([JWKRegistry.import_key(j1), JWKRegistry.import_key(j2)]) if keyset else JWKRegistry.import_key(j1)
